@@ -172,6 +172,29 @@ class ExprGen:
             return p
         return PopulationProbability(population=builder.population, distribution=p.distribution)
 
+    def twin(self, e):
+        """The term e with the value mark of one of its variables (child, parent or subscript) changed; None if e is no term."""
+        from y0.dsl import Probability
+        if not isinstance(e, Probability):
+            return None
+        t = to_tree(e)
+        slots = [v for v in t[2] + t[3]]
+        slots += [iv for v in t[2] + t[3] if v["k"] == "C" for iv in v["i"]]
+        slot = self.rng.choice(slots)
+        if isinstance(slot, dict):
+            slot["s"] = self.rng.choice([x for x in (None, False, True) if x != slot["s"]])
+            if slot["k"] in ("V", "I"):      # what the public operators build: +X / -X is an Intervention, X a Variable
+                slot["k"] = "V" if slot["s"] is None else "I"
+        else:
+            slot[1] = not slot[1]
+        for v in t[2] + t[3]:
+            if v["k"] == "C":
+                v["i"] = sorted(v["i"])
+        try:
+            return from_tree(t)
+        except Exception:  # noqa: BLE001
+            return None
+
     def expr(self, depth: int, bound=frozenset()):
         """A random expression; building may hit ZeroDivisionError (a Zero reaching a denominator): retry."""
         for _ in range(50):
@@ -195,6 +218,10 @@ class ExprGen:
         if r < 0.35:
             k = rng.randint(2, 3)
             parts = [self.expr(depth - 1, bound) for _ in range(k)]
+            if self.rich and rng.random() < 0.2:     # a near-twin of one factor: the same term with one value mark changed (ties in every sort key but the last)
+                tw = self.twin(rng.choice(parts))
+                if tw is not None:
+                    parts.insert(rng.randrange(len(parts) + 1), tw)
             if rng.random() < 0.5 and not self.public:
                 try:
                     return Product(tuple(parts))
